@@ -200,6 +200,48 @@ def handleLists : List String → Option String
         pure s!"ok {o.pulls} {encList (o.pos.map (·.text))} {encList (o.neg.map (·.text))} {matchBits o.pos o.neg r.subjects}"
   | _ => none
 
+def encArgs (l : List (List Char × Int)) : String :=
+  if l.isEmpty then "-" else ",".intercalate (l.map fun qa => s!"{encStr qa.1}:{qa.2}")
+
+/-- `bargs <api> <flags> <isBytes> <limit> <fields as for lists>` → `ok <pattern>:<limit>,…|-`:
+    the `(normalised pattern, current_limit)` pairs the loop hands to `expand` (= the arguments of
+    `bracex.iexpand` under BRACE), in call order, for the whole entry point (exclusion call, then
+    the main loop; for `Glob`: inclusion list, then exclusion list) -/
+def handleBraceArgs : List String → Option String
+  | api :: fl :: b :: lim :: fields => do
+    let flags ← fl.toNat?
+    let isBytes ← decBool b
+    let limit ← decInt lim
+    let r ← fields.foldlM addField ({} : Req)
+    let x := extOf isBytes r
+    let f := Flags.ofNat flags
+    if api = "gl" then
+      let g := globCfgOf flags r.hasExcl r.scandotdir limit
+      if !(bracesCovered isBytes r g.flags (r.pats ++ r.excl)) then pure "missing-brace" else
+      if r.pats.isEmpty then pure "ok -" else
+      let a1 := Compile.braceArgs x g.flags (Compile.globPolicy x g false) g.limit r.pats g.limit ⟨0, 0, [], ⟨[], []⟩⟩
+      let a2 := match Compile.globParse x g false r.pats g.limit ⟨[], []⟩ 0 with
+        | .error _ => []
+        | .ok (o, cl, pulls) =>
+          if r.hasExcl then Compile.braceArgs x g.flags (Compile.globPolicy x g true) g.limit r.excl cl ⟨0, pulls, [], o⟩ else []
+      pure s!"ok {encArgs (a1 ++ a2)}"
+    else
+      let trF : Flags → Flags := fun f => if api = "tr" then { f with translate := true } else f
+      let fE := trF (Compile.negFlags (Compile.noNegateFlags f))
+      let fM := trF (if r.hasExcl then Compile.noNegateFlags f else f)
+      if !(bracesCovered isBytes r fM r.pats && bracesCovered isBytes r fE r.excl) then pure "missing-brace" else
+      if r.hasExcl then
+        let aE := Compile.braceArgs x fE (Compile.pnPolicy x fE) limit r.excl limit ⟨0, 0, [], ⟨[], []⟩⟩
+        let aM := match Compile.compileCore x fE limit r.excl [] 0 with
+          | .error _ => []
+          | .ok o =>
+            let l' : Int := limit - o.pos.length
+            Compile.braceArgs x fM (Compile.pnPolicy x fM) l' r.pats l' ⟨0, o.pulls, [], ⟨[], o.pos⟩⟩
+        pure s!"ok {encArgs (aE ++ aM)}"
+      else
+        pure s!"ok {encArgs (Compile.braceArgs x fM (Compile.pnPolicy x fM) limit r.pats limit ⟨0, 0, [], ⟨[], []⟩⟩)}"
+  | _ => none
+
 /-- `lru <capacity> <key id>…` → `ok <H|M per call> <final size>`: the hit / miss trace of the LRU
     model for a sequential history (keys are opaque ids) -/
 def handleLru : List String → Option String
@@ -215,6 +257,6 @@ def handleLru : List String → Option String
   | _ => none
 
 def handlers : List (String × (List String → Option String)) :=
-  [("norm", handleNorm), ("split", handleSplit), ("lists", handleLists), ("lru", handleLru)]
+  [("norm", handleNorm), ("split", handleSplit), ("lists", handleLists), ("lru", handleLru), ("bargs", handleBraceArgs)]
 
 end WcModel.Driver.Lists
